@@ -5,6 +5,7 @@ Python API in hostile call histories (one process = one history); per-call attri
 of sanitizer reports; boundary precondition contract on c_anneal_quso/c_anneal_puso;
 H2 in-kernel bounds assertions; "later calls unaffected" reference call; valgrind
 memcheck subset on the plain build (thorough); canaries prove the pipeline reports."""
+import collections
 import glob
 import json
 import os
@@ -146,6 +147,22 @@ def setup(ctx):
             out = _orig(*args)
             after = [sys.getrefcount(o) for o in flat]
             ctx.count("refcount-objects-checked", len(flat))
+            # ... and what it hands back owns its references: a list stored in k slots of the result holds >= k references
+            try:
+                slots = collections.Counter(id(x) for x in out[0]) if isinstance(out, tuple) and out and isinstance(out[0], list) else {}
+                seen_ = set()
+                for x in (out[0] if slots else []):
+                    if id(x) in seen_ or not isinstance(x, list):
+                        continue
+                    seen_.add(id(x))
+                    held = sys.getrefcount(x) - 2          # minus the loop variable and getrefcount's own argument
+                    ctx.count("result-reference-checks")
+                    if held < slots[id(x)]:
+                        _state["pending"].append((_name, ["reference count of a returned state list is too small: stored in %d slots of the result, owns %d references" % (slots[id(x)], held)]))
+                        break
+                del x
+            except Exception:   # noqa
+                pass
             bad = [(type(o).__name__, repr(o)[:40], b, a) for o, b, a in zip(flat, before, after) if a != b]
             if bad:
                 _state["pending"].append((_name, ["reference count of a caller-owned %s object changed across the call (%s: %d -> %d)" % (
@@ -398,6 +415,9 @@ def case(ctx, rng, idx):
         except Exception as e:   # noqa
             res, exc = None, e
     for name, errs in _state["pending"]:
+        if errs[0].startswith("reference count of a returned"):
+            ctx.violation("refcount:%s:returned-list-shared-without-owning-references" % name, "%s: %s" % (name, errs[0]), w)
+            continue
         if errs[0].startswith("reference count"):
             ctx.violation("refcount:%s:caller-owned-object-changed" % name, "%s: %s" % (name, errs[0]), w)
             continue
